@@ -30,7 +30,7 @@ META = {
     'level_text': ('A virtual clock drives datetime.today()/utcnow() in the S3 cassette and last-modified in the fake bucket.  Recordings are saved at every '
                    'grid instant (quick: every 3 h of 3 days; thorough: every hour of 4 days, across a leap day and month end), with decoys in other '
                    'categories, and EVERY window start <= end on the grid is looked up, plus end=None with "now" at several positions; beyond the grid '
-                   'seeded random second-level instants and windows.  The returned set must equal {r : start <= t_r <= end}. Also: a long-lived reader and a long-lived writer cassette across midnights, random-order listing, and several lazy lookups with different windows in flight on one cassette object. Windows whose end lies before their start, starts in the future, windows with a limit. Ids whose text order is unrelated to creation order; a storage-class threshold. Beyond the grid the category text is tape-chosen (blanks, %, braces).'),
+                   'seeded random second-level instants and windows.  The returned set must equal {r : start <= t_r <= end}. Also: a long-lived reader and a long-lived writer cassette across midnights, random-order listing, and several lazy lookups with different windows in flight on one cassette object. Windows whose end lies before their start, starts in the future, windows with a limit. Ids whose text order is unrelated to creation order; a storage-class threshold. Beyond the grid the category text is tape-chosen (blanks, %, braces); one listing request of a lookup failing (the lookup may raise, a normal return is exact).'),
     'level_note': 'Trusted: virtual clock seam, fake S3 last_modified (second resolution, UTC), the inclusive-window reference. Recordings are created and saved at the same instant; process clock is UTC.',
     'rule': ('evaluation = one window lookup; work item = all windows with one start instant (table part) or 30 random windows over randomly timed recordings; '
              'non-trivial = the window contains some but not all recordings of the category; distinct = distinct event-log digest. exhaustive=true refers to the grid.'),
@@ -225,6 +225,52 @@ def random_windows(tape, clock):
     return run
 
 
+def faulty_listing(tape, clock):
+    """One listing request (a page of one day folder) of a lookup fails: the lookup may fail, it never returns normally with
+    less (or more) than the window holds."""
+    run = Run(PROP)
+    choose_category(tape, run)
+    store = C.Store('s3', key_prefix=tape.choice(['a', '', 'ab']), clock=clock, page_size=tape.choice([1000, 1, 2]))
+    try:
+        span = 3 * 86400
+        instants = sorted(set(T0 + datetime.timedelta(seconds=tape.draw(span // 60) * 60) for _ in range(4 + tape.draw(12))))
+        recs = populate(clock, store, instants)
+        cas = store.open(read_only=True)
+        world = store.world
+        now = T0 + datetime.timedelta(days=5)
+        clock.set(now)
+        run.subruns = 0
+        for _ in range(12):
+            c, d = tape.choice(instants), tape.choice(instants)
+            a, b = min(c, d), max(c, d)
+            rnd = tape.draw(3) == 2
+            n0 = world.list_calls
+            clean = list(cas.iter_recording_ids(CAT[0], start_date=a, end_date=b, random_results=rnd))
+            n_req = world.list_calls - n0
+            if not n_req:
+                continue
+            world.fail_list_at = world.list_calls + 1 + tape.draw(n_req)
+            fired0 = world.list_faults_fired
+            run.subruns += 1
+            try:
+                got = list(cas.iter_recording_ids(CAT[0], start_date=a, end_date=b, random_results=rnd))
+            except Exception as ex:
+                got = None
+                run.ev('faulty-lookup', str(a), str(b), 'raised', type(ex).__name__)
+            world.fail_list_at = None
+            if world.list_faults_fired > fired0:
+                run.fault('list_raises')
+                run.nontrivial = True
+            if got is not None:
+                run.ev('faulty-lookup', str(a), str(b), 'returned', len(got))
+                check_window(run, cas, recs, a, b, now, 'lookup with a failing listing request,', got=got)
+            run.check(set(clean) == set(rid for t, rid in recs if a <= t <= b), 'window_exact', 'missed:fault-free-control',
+                      'the fault-free lookup of window %s .. %s was not exact' % (a, b))
+    finally:
+        store.close()
+    return run
+
+
 def long_lived(tape, clock):
     """One reader cassette object lives through the whole history while the clock crosses midnights: the same
     open-ended lookup is repeated after every save."""
@@ -269,6 +315,8 @@ def run_tape(tape):
             return table_start(tape, clock, 'quick')
         if mode == 2:
             return table_start(tape, clock, 'thorough')
+        if tape.draw(4) == 3:
+            return faulty_listing(tape, clock)
         return random_windows(tape, clock)
 
 
